@@ -228,6 +228,7 @@ main(int argc, char **argv)
   else if (esl_opt_GetBoolean(go, "--exptail"))
     {
       esl_histogram_GetTailByMass(h, tailp, &xv, &n, NULL);
+      if (n == 0) esl_fatal("no data in the %g tail mass to fit an exponential to: need more data or a larger -t\n", tailp);
       if (esl_exp_FitComplete(xv, n, &(params[0]), &(params[1])) != eslOK)
 	esl_fatal("exponential complete fit failed");
       esl_histogram_SetExpectedTail(h, params[0], tailp, &esl_exp_generic_cdf, &params);
@@ -238,6 +239,7 @@ main(int argc, char **argv)
     {
       params[1] = lambda;
       esl_histogram_GetTailByMass(h, tailp, &xv, &n, NULL);
+      if (n == 0) esl_fatal("no data in the %g tail mass to fit an exponential to: need more data or a larger -t\n", tailp);
       params[0] = xv[0];	/* might be able to do better than minimum score, but this'll do */
       esl_histogram_SetExpectedTail(h, params[0], tailp, &esl_exp_generic_cdf, &params);
     }
